@@ -45,7 +45,7 @@ MCNext ==
                  /\ nid' = IF m \in DupMsgs THEN nid ELSE nid + Len(m.ops)
         \/ CStart /\ H([a |-> "start"]) /\ UNCHANGED nid
         \/ /\ sending /\ \E r \in Resps : CDeliver(r) /\ H([a |-> "deliver", r |-> r]) /\ UNCHANGED nid
-        \/ /\ WithFaults /\ sending /\ CRecvFail /\ H([a |-> "recvfail", code |-> "Unavailable"]) /\ UNCHANGED nid
+        \/ /\ WithFaults /\ sending /\ CRecvFail /\ \E cd \in {"Unavailable", "Canceled"} : H([a |-> "recvfail", code |-> cd]) /\ UNCHANGED nid
         \/ /\ WithFaults /\ sending /\ CRecvEOF /\ H([a |-> "recveof"]) /\ UNCHANGED nid
         \/ /\ WithFaults /\ sending /\ failIn = -1 /\ sender = "alive"
            /\ \E k \in 0..1 : CSetSendFail(k) /\ H([a |-> "sendfail", n |-> k]) /\ UNCHANGED nid
